@@ -629,7 +629,7 @@ theorem derived_chain_spec {w : Nat} {en : List Pair} {faces : List (List Int)} 
         · exact Or.inl rfl
         · exact Or.inr rfl
         · exact absurd rfl hne
-      | _ :: _ :: _ :: _, h => simp at h; omega
+      | _ :: _ :: _ :: _, h => simp at h <;> omega
     -- the stored row is the padded list: exactly two cells
     have hrow2 : row = (incidences (fe.map compress) (k : Int)).map (fun n => some (Int.ofNat n)) := by
       have hl2 : (incidences (fe.map compress) (k : Int)).length = 2 := by
@@ -643,7 +643,7 @@ theorem derived_chain_spec {w : Nat} {en : List Pair} {faces : List (List Int)} 
           exact List.length_filterMap_lt_length_iff_exists.mpr ⟨none, hcmem, rfl⟩
         omega
       have : row = (compress row).map some := by
-        clear hrow hc
+        clear hrow hc hrl
         induction row with
         | nil => rfl
         | cons x xs ih =>
@@ -652,12 +652,440 @@ theorem derived_chain_spec {w : Nat} {en : List Pair} {faces : List (List Int)} 
           | some v =>
             simp only [compress, List.filterMap_cons_some (show id (some v) = some v from rfl), List.map_cons]
             congr 1
-            exact ih (by simp at hrl ⊢; omega) (fun c hc => hfull c (by simp [hc]))
+            exact ih (fun c hc => hfull c (by simp [hc]))
       rw [this, hc, List.map_map]
       rfl
     refine ⟨row, List.mem_of_getElem? hrow, ?_⟩
     rcases hlist with h | h
     · left; rw [hrow2, h]; rfl
     · right; rw [hrow2, h]; rfl
+
+end Ems.Mesh
+
+namespace Ems.Mesh
+
+/-! ### counting: how often an edge is used -/
+
+theorem length_incidences_aux (fe : List (List Int)) (k : Int) (s : Nat) :
+    (((fe.zipIdx s).flatMap fun (x : List Int × Nat) => x.1.map fun k' => (k', x.2)).filter
+        (fun ev => ev.1 == k)).length = fe.flatten.count k := by
+  induction fe generalizing s with
+  | nil => simp
+  | cons row rest ih =>
+    simp only [List.zipIdx_cons, List.flatMap_cons, List.filter_append, List.length_append,
+      List.flatten_cons, List.count_append, ih]
+    congr 1
+    rw [List.count_eq_length_filter, List.filter_map, List.length_map]
+    rfl
+
+theorem length_incidences (fe : List (List Int)) (k : Int) :
+    (incidences fe k).length = fe.flatten.count k := by
+  simp only [incidences, List.length_map, edgeFaceEvents]
+  exact length_incidences_aux fe k 0
+
+theorem count_incidences_aux (fe : List (List Int)) (k : Int) (s i : Nat) :
+    ((((fe.zipIdx s).flatMap fun (x : List Int × Nat) => x.1.map fun k' => (k', x.2)).filter
+        (fun ev => ev.1 == k)).map (·.2)).count i
+      = if s ≤ i then ((fe[i - s]?).map (·.count k)).getD 0 else 0 := by
+  induction fe generalizing s with
+  | nil => simp
+  | cons row rest ih =>
+    simp only [List.zipIdx_cons, List.flatMap_cons, List.filter_append, List.map_append,
+      List.count_append, ih]
+    have hhead : (((row.map fun k' => (k', s)).filter (fun ev => ev.1 == k)).map (·.2)).count i
+        = if s = i then row.count k else 0 := by
+      rw [List.filter_map, List.map_map]
+      have : ((fun (x : Int × Nat) => x.2) ∘ fun k' => (k', s)) = fun _ => s := rfl
+      rw [this, List.map_const', List.count_replicate]
+      by_cases h : s = i
+      · subst h
+        simp only [beq_self_eq_true, if_true]
+        rw [List.count_eq_length_filter]
+        rfl
+      · have : (s == i) = false := by simpa using h
+        simp [this, h]
+    rw [hhead]
+    by_cases h1 : s = i
+    · subst h1
+      have : ¬ s + 1 ≤ s := by omega
+      simp [this]
+    · by_cases h2 : s + 1 ≤ i
+      · have h3 : s ≤ i := by omega
+        have h4 : i - s = (i - (s + 1)) + 1 := by omega
+        simp [h1, h2, h3, h4]
+      · have h3 : ¬ s ≤ i := by omega
+        simp [h1, h2, h3]
+
+/-- face `i` occurs among the incidences of edge `k` as often as `k` occurs in its row -/
+theorem count_incidences (fe : List (List Int)) (k : Int) (i : Nat) :
+    (incidences fe k).count i = ((fe[i]?).map (·.count k)).getD 0 := by
+  have := count_incidences_aux fe k 0 i
+  simpa [incidences, edgeFaceEvents] using this
+
+theorem count_map_ofNat (l : List Nat) (k : Nat) : (l.map Int.ofNat).count (k : Int) = l.count k := by
+  rw [List.count_eq_countP, List.countP_map, List.count_eq_countP]
+  apply List.countP_congr
+  intro x _
+  simp only [Function.comp, beq_iff_eq]
+  constructor
+  · intro h
+    have h' : (x : Int) = (k : Int) := h
+    omega
+  · intro h; subst h; rfl
+
+/-- the rows `makeFaceEdge` builds: per face the edge index of every consecutive pair -/
+theorem makeFaceEdge_rows {w : Nat} {en : List Pair} {faces : List (List Int)} {fe : Table}
+    (h : makeFaceEdge w en faces = .ok fe) :
+    ∃ rows : List (List Nat), fe = rows.map (fun ks => pad w (ks.map Int.ofNat)) ∧
+      faces.map (fun f => (facePairs f).map (edgeIndex? en)) = rows.map (·.map some) := by
+  simp only [makeFaceEdge] at h
+  split at h
+  · simp at h
+  · rename_i rows hrows
+    split at h
+    · simp at h
+    · refine ⟨rows, (Except.ok.inj h).symm, ?_⟩
+      have h1 := (optAll_eq_some _ _).mp hrows
+      apply List.ext_getElem?
+      intro i
+      have h2 := congrArg (·[i]?) h1
+      simp only [List.getElem?_map] at h2 ⊢
+      cases hf : faces[i]? with
+      | none =>
+        simp only [hf, Option.map_none] at h2 ⊢
+        cases hr : rows[i]? with
+        | none => rfl
+        | some _ => simp [hr] at h2
+      | some f =>
+        cases hr : rows[i]? with
+        | none => simp [hf, hr] at h2
+        | some ks =>
+          simp only [hf, hr, Option.map_some, Option.some.injEq] at h2 ⊢
+          exact (optAll_eq_some _ _).mp h2
+
+theorem count_edgeIndex {en : List Pair} (hnd : (en.map normPair).Nodup) {k : Nat} (hk : k < en.length) :
+    ∀ (ps : List Pair) (ks : List Nat), ps.map (edgeIndex? en) = ks.map some →
+      ks.count k = (ps.map normPair).count (normPair en[k])
+  | [], ks, h => by
+    cases ks with
+    | nil => rfl
+    | cons _ _ => simp at h
+  | p :: ps, ks, h => by
+    cases ks with
+    | nil => simp at h
+    | cons k0 ks =>
+      simp only [List.map_cons, List.cons.injEq] at h
+      have ih := count_edgeIndex hnd hk ps ks h.2
+      have hiff : (k0 = k) ↔ (normPair p = normPair en[k]) := by
+        constructor
+        · intro hk0
+          subst hk0
+          exact (edgeIndex?_some h.1).2.symm
+        · intro hp
+          have := edgeIndex?_unique hnd hk hp.symm
+          rw [h.1] at this
+          exact Option.some.inj this
+      simp only [List.map_cons, List.count_cons, ih]
+      congr 1
+      by_cases hk0 : k0 = k
+      · simp [hk0, hiff.mp hk0]
+      · have : ¬ normPair p = normPair en[k] := fun h => hk0 (hiff.mpr h)
+        simp [hk0, this]
+
+/-- edge `k` is used by exactly as many face-edge cells as there are face sides with its node pair -/
+theorem length_incidences_faceEdge {w : Nat} {en : List Pair} {faces : List (List Int)} {fe : Table}
+    (hnd : (en.map normPair).Nodup) (hfe : makeFaceEdge w en faces = .ok fe)
+    {k : Nat} (hk : k < en.length) :
+    (incidences (fe.map compress) (k : Int)).length = sideCount faces en[k] := by
+  obtain ⟨rows, rfl, hrows⟩ := makeFaceEdge_rows hfe
+  rw [length_incidences, sideCount]
+  simp only [List.map_map]
+  have hcomp : ((fun ks : List Nat => pad w (ks.map Int.ofNat)) |> (compress ∘ ·)) = fun ks => ks.map Int.ofNat := by
+    funext ks
+    simp [Function.comp, compress_pad]
+  have hcomp' : (compress ∘ fun ks : List Nat => pad w (ks.map Int.ofNat)) = fun ks => ks.map Int.ofNat := hcomp
+  rw [hcomp']
+  clear hfe hcomp hcomp'
+  induction faces generalizing rows with
+  | nil =>
+    cases rows with
+    | nil => simp [allPairs]
+    | cons _ _ => simp at hrows
+  | cons f fs ih =>
+    cases rows with
+    | nil => simp at hrows
+    | cons r rs =>
+      simp only [List.map_cons, List.cons.injEq] at hrows
+      simp only [List.map_cons, List.flatten_cons, List.count_append, allPairs, List.flatMap_cons,
+        List.map_append]
+      rw [count_map_ofNat, count_edgeIndex hnd hk (facePairs f) r hrows.1]
+      congr 1
+      exact ih rs hrows.2
+
+end Ems.Mesh
+
+namespace Ems.Mesh
+
+/-! ### the derivations succeed on a manifold mesh -/
+
+theorem sum_map_le {α} (l : List α) (g h : α → Nat) (hle : ∀ x ∈ l, g x ≤ h x) :
+    (l.map g).sum ≤ (l.map h).sum := by
+  induction l with
+  | nil => simp
+  | cons x xs ih =>
+    simp only [List.map_cons, List.sum_cons]
+    have := hle x (by simp)
+    have := ih (fun y hy => hle y (by simp [hy]))
+    omega
+
+theorem sum_indicator_zero (x : Int) : ∀ (ns : List Nat), (∀ k ∈ ns, x ≠ (k : Int)) →
+    (ns.map fun (k : Nat) => if x = (k : Int) then 1 else 0).sum = 0
+  | [], _ => rfl
+  | k :: ks, h => by
+    have h1 := h k (by simp)
+    have := sum_indicator_zero x ks (fun k' hk' => h k' (by simp [hk']))
+    simp [h1, this]
+
+theorem sum_indicator_le_one (x : Int) : ∀ (ns : List Nat), ns.Nodup →
+    (ns.map fun (k : Nat) => if x = (k : Int) then 1 else 0).sum ≤ 1
+  | [], _ => by simp
+  | k :: ks, h => by
+    have hn := List.nodup_cons.mp h
+    by_cases hx : x = (k : Int)
+    · have hz := sum_indicator_zero x ks (by
+        intro k' hk' hx'
+        have : k = k' := by omega
+        exact hn.1 (this ▸ hk'))
+      simp [hx] at hz ⊢
+      omega
+    · have := sum_indicator_le_one x ks hn.2
+      simp [hx]
+      exact this
+
+theorem sum_count_split (x : Int) (xs : List Int) : ∀ (ns : List Nat),
+    (ns.map fun (k : Nat) => (x :: xs).count (k : Int)).sum
+      = (ns.map fun (k : Nat) => xs.count (k : Int)).sum
+        + (ns.map fun (k : Nat) => if x = (k : Int) then 1 else 0).sum
+  | [] => rfl
+  | k :: ks => by
+    have ih := sum_count_split x xs ks
+    simp only [List.map_cons, List.sum_cons]
+    rw [ih, List.count_cons]
+    have : (if (x == (k : Int)) = true then 1 else 0) = (if x = (k : Int) then 1 else 0) := by
+      by_cases h : x = (k : Int) <;> simp [h]
+    omega
+
+/-- over a duplicate-free list of edge numbers, the occurrences in a row add up to at most its length -/
+theorem sum_count_le (ns : List Nat) (hns : ns.Nodup) (R : List Int) :
+    (ns.map fun (k : Nat) => R.count (k : Int)).sum ≤ R.length := by
+  induction R with
+  | nil =>
+    have : (ns.map fun (k : Nat) => ([] : List Int).count (k : Int)) = ns.map fun _ => 0 := by simp
+    rw [this]
+    clear this hns
+    induction ns with
+    | nil => simp
+    | cons _ _ ih => simpa using ih
+  | cons x xs ih =>
+    rw [sum_count_split]
+    have := sum_indicator_le_one x ns hns
+    simp only [List.length_cons]
+    omega
+
+theorem sum_count_range_le (n : Nat) (R : List Int) :
+    ((List.range n).map fun (k : Nat) => R.count (k : Int)).sum ≤ R.length :=
+  sum_count_le _ List.nodup_range R
+
+theorem derived_tables_exist {w : Nat} {en : List Pair} {faces : List (List Int)}
+    (hnd : (en.map normPair).Nodup)
+    (hcover : ∀ f ∈ faces, ∀ p ∈ facePairs f, ∃ e ∈ en, normPair e = normPair p)
+    (hw : ∀ f ∈ faces, f.length ≤ w)
+    (hm : Manifold faces) :
+    ∃ fe ef ff, makeFaceEdge w en faces = .ok fe ∧
+      makeEdgeFace en.length (fe.map compress) = .ok ef ∧
+      makeFaceFace faces.length w ef = .ok ff := by
+  obtain ⟨fe, hfe, hfelen, _⟩ := makeFaceEdge_spec w en faces hcover hw
+  obtain ⟨rows, hfe_eq, hrows⟩ := makeFaceEdge_rows hfe
+  have hcomp : fe.map compress = rows.map (·.map Int.ofNat) := by
+    rw [hfe_eq, List.map_map]
+    apply List.map_congr_left
+    intro ks _
+    simp [Function.comp, compress_pad]
+  have hrowslen : rows.length = faces.length := by
+    have := congrArg List.length hrows
+    simpa using this.symm
+  -- the row of face i: indexes found for its consecutive pairs
+  have hrow_i : ∀ i (hi : i < faces.length) (hi' : i < rows.length),
+      (facePairs faces[i]).map (edgeIndex? en) = rows[i].map some := by
+    intro i hi hi'
+    have := congrArg (·[i]?) hrows
+    simpa [List.getElem?_map, List.getElem?_eq_getElem hi, List.getElem?_eq_getElem hi'] using this
+  -- entries are in range
+  have hr : ∀ row ∈ fe.map compress, ∀ k ∈ row, 0 ≤ k ∧ k < (en.length : Int) := by
+    intro row hrow k hk
+    rw [hcomp] at hrow
+    obtain ⟨ks, hks, rfl⟩ := List.mem_map.mp hrow
+    obtain ⟨k0, hk0, rfl⟩ := List.mem_map.mp hk
+    obtain ⟨i, hi, rfl⟩ := List.getElem_of_mem hks
+    have hi' : i < faces.length := by omega
+    have h1 := hrow_i i hi' hi
+    obtain ⟨c, hc, rfl⟩ := List.getElem_of_mem hk0
+    have h2 := congrArg (·[c]?) h1
+    simp only [List.getElem?_map, List.getElem?_eq_getElem hc, Option.map_some] at h2
+    cases hp : (facePairs faces[i])[c]? with
+    | none => simp [hp] at h2
+    | some p =>
+      simp only [hp, Option.map_some, Option.some.injEq] at h2
+      obtain ⟨hlt, _⟩ := edgeIndex?_some h2
+      constructor
+      · exact Int.natCast_nonneg _
+      · exact Int.ofNat_lt.mpr hlt
+  -- manifold: every edge is used at most twice
+  have hman : ∀ k : Nat, k < en.length → (incidences (fe.map compress) (k : Int)).length ≤ 2 := by
+    intro k hk
+    rw [length_incidences_faceEdge hnd hfe hk]
+    by_cases h0 : sideCount faces en[k] = 0
+    · omega
+    · have hpos : 0 < ((allPairs faces).map normPair).count (normPair en[k]) := by
+        unfold sideCount at h0; omega
+      obtain ⟨p, hp, hpn⟩ := List.mem_map.mp (List.count_pos_iff.mp hpos)
+      have := hm.1 p hp
+      unfold sideCount at this ⊢
+      rw [hpn] at this
+      exact this
+  obtain ⟨ef, hef, heflen, hefspec⟩ := makeEdgeFace_spec en.length (fe.map compress) hr hman
+  refine ⟨fe, ef, ?_⟩
+  -- shape of the rows of ef
+  have hefrow : ∀ row ∈ ef, row.length = 2 ∧ ∃ k, k < en.length ∧
+      compress row = (incidences (fe.map compress) (k : Int)).map Int.ofNat := by
+    intro row hrow
+    obtain ⟨k, hk, rfl⟩ := List.getElem_of_mem hrow
+    obtain ⟨row', hrow', hl, hc⟩ := hefspec k (by omega)
+    rw [List.getElem?_eq_getElem hk] at hrow'
+    rw [Option.some.inj hrow']
+    exact ⟨hl, k, by omega, hc⟩
+  have hinc_lt : ∀ k i, i ∈ incidences (fe.map compress) (k : Int) → i < faces.length := by
+    intro k i h
+    obtain ⟨row, hrow, _⟩ := mem_incidences.mp h
+    have : i < (fe.map compress).length := (List.getElem?_eq_some_iff.mp hrow).1
+    simpa [hfelen] using this
+  -- occurrences of k in the row of face i = sides of i with that node pair (at most one)
+  have hcount_le : ∀ k (hk : k < en.length) i, (incidences (fe.map compress) (k : Int)).count i ≤ 1 := by
+    intro k hk i
+    rw [count_incidences]
+    by_cases hi : i < faces.length
+    · have hi' : i < rows.length := by omega
+      have : (fe.map compress)[i]? = some (rows[i].map Int.ofNat) := by
+        rw [hcomp]; simp [List.getElem?_eq_getElem hi']
+      rw [this]
+      simp only [Option.map_some, Option.getD_some]
+      rw [count_map_ofNat, count_edgeIndex hnd hk _ _ (hrow_i i hi hi')]
+      exact (List.nodup_iff_count.mp (hm.2 faces[i] (List.getElem_mem _))) _
+    · have : (fe.map compress)[i]? = none := by
+        simp; omega
+      simp [this]
+  -- 1. no malformed rows
+  have h1 : (ef.any badEdgeFaceRow) = false := by
+    rw [List.any_eq_false]
+    intro row hrow
+    have := (hefrow row hrow).1
+    simp [badEdgeFaceRow, this]
+  -- facts about the events
+  have hev : ∀ a b, (a, b) ∈ adjEvents ef → a ≠ b ∧ ∃ i : Nat, a = (i : Int) ∧ i < faces.length := by
+    intro a b hab
+    obtain ⟨row, hrow, hshape⟩ := mem_adjEvents.mp hab
+    obtain ⟨_, k, hk, hc⟩ := hefrow row hrow
+    have hcomp2 : compress row = [a, b] ∨ compress row = [b, a] := by
+      rcases hshape with h | h <;> simp [h, compress]
+    have hmema : a ∈ compress row := by rcases hcomp2 with h | h <;> simp [h]
+    rw [hc] at hmema
+    obtain ⟨i, hi, rfl⟩ := List.mem_map.mp hmema
+    refine ⟨?_, i, rfl, hinc_lt k i hi⟩
+    intro hab'
+    subst hab'
+    have h2 : ((incidences (fe.map compress) (k : Int)).map Int.ofNat).count (Int.ofNat i) = 2 := by
+      rw [← hc]
+      rcases hcomp2 with h | h <;> simp [h]
+    have h3 : ((incidences (fe.map compress) (k : Int)).map Int.ofNat).count (Int.ofNat i)
+        = (incidences (fe.map compress) (k : Int)).count i := count_map_ofNat _ i
+    have := hcount_le k hk i
+    omega
+  have h2 : ((adjEvents ef).any fun ev => decide (ev.1 = ev.2)) = false := by
+    rw [List.any_eq_false]
+    intro ev hmem
+    have := (hev ev.1 ev.2 hmem).1
+    simpa using this
+  have h3 : ((adjEvents ef).any fun ev => !inRange faces.length ev.1) = false := by
+    rw [List.any_eq_false]
+    intro ev hmem
+    obtain ⟨_, i, hi, hlt⟩ := hev ev.1 ev.2 hmem
+    simp only [inRange, hi, Bool.not_eq_true', Bool.not_eq_false, Bool.and_eq_true, decide_eq_true_eq]
+    exact ⟨Int.natCast_nonneg _, Int.ofNat_lt.mpr hlt⟩
+  -- 4. no row is wider than the face table
+  have hev0 : ∀ ev ∈ adjEvents ef, 0 ≤ ev.1 := by
+    intro ev hmem
+    obtain ⟨_, i, hi, _⟩ := hev ev.1 ev.2 hmem
+    rw [hi]; exact Int.natCast_nonneg _
+  have h4 : ((accumulate faces.length ((adjEvents ef).map fun ev => (ev.1.toNat, ev.2))).any
+      fun r => decide (w < r.length)) = false := by
+    rw [List.any_eq_false]
+    intro r hmem
+    obtain ⟨f, hf, rfl⟩ := List.getElem_of_mem hmem
+    have hf' : f < faces.length := by simpa [length_accumulate] using hf
+    have hrowf := getElem?_accumulate faces.length ((adjEvents ef).map fun ev => (ev.1.toNat, ev.2)) f hf'
+    rw [filter_toNat_key _ hev0, List.getElem?_eq_getElem hf] at hrowf
+    rw [Option.some.inj hrowf]
+    simp only [List.length_map, decide_eq_true_eq, Nat.not_lt]
+    -- B1: as a count of first components
+    have hB1 : ((adjEvents ef).filter fun ev => ev.1 == (f : Int)).length
+        = ((adjEvents ef).map (·.1)).count (f : Int) := by
+      rw [List.count_eq_countP, List.countP_map, List.countP_eq_length_filter]
+      rfl
+    -- B2: bounded by the occurrences of f in the compressed rows of ef
+    have hB2 : ((adjEvents ef).map (·.1)).count (f : Int) ≤ ((ef.map compress).flatten).count (f : Int) := by
+      simp only [adjEvents, List.map_flatMap, List.count_flatMap, List.count_flatten, List.map_map]
+      apply sum_map_le
+      intro row _
+      simp only [Function.comp]
+      unfold facePairEvents
+      split
+      · simp [compress]
+      · simp
+    -- B3: the compressed rows of ef, edge by edge
+    have hB3 : ef.map compress = (List.range en.length).map fun (k : Nat) =>
+        (incidences (fe.map compress) (k : Int)).map Int.ofNat := by
+      apply List.ext_getElem?
+      intro k
+      by_cases hk : k < en.length
+      · obtain ⟨row, hrow, _, hc⟩ := hefspec k hk
+        simp [List.getElem?_map, hrow, hc, hk]
+      · have h1 : (ef.map compress)[k]? = none := by
+          apply List.getElem?_eq_none; simp; omega
+        have h2 : ((List.range en.length).map fun (k : Nat) =>
+            (incidences (fe.map compress) (k : Int)).map Int.ofNat)[k]? = none := by
+          apply List.getElem?_eq_none; simp; omega
+        rw [h1, h2]
+    have hi' : f < rows.length := by omega
+    have hRf : (fe.map compress)[f]? = some (rows[f].map Int.ofNat) := by
+      rw [hcomp]; simp [List.getElem?_eq_getElem hi']
+    have hB4 : ((ef.map compress).flatten).count (f : Int)
+        = ((List.range en.length).map fun (k : Nat) => (rows[f].map Int.ofNat).count (k : Int)).sum := by
+      rw [hB3, List.count_flatten, List.map_map]
+      congr 1
+      apply List.map_congr_left
+      intro k _
+      simp only [Function.comp]
+      have e1 := count_map_ofNat (incidences (fe.map compress) (k : Int)) f
+      have e2 := count_map_ofNat rows[f] k
+      rw [e1, e2, count_incidences, hRf]
+      simp [count_map_ofNat]
+    have hB5 := sum_count_range_le en.length (rows[f].map Int.ofNat)
+    have hB6 : (rows[f].map Int.ofNat).length = faces[f].length := by
+      have := congrArg List.length (hrow_i f hf' hi')
+      simpa [length_facePairs] using this.symm
+    have := hw faces[f] (List.getElem_mem _)
+    omega
+  simp only [makeFaceFace, h1, h2, h3, h4]
+  exact ⟨_, hfe, hef, rfl⟩
 
 end Ems.Mesh
